@@ -59,8 +59,8 @@ func (w *World) spawn(fr *frame, fn Value, args []Value) {
 			w.threadFinished(t)
 		}()
 	}()
-	// spawning is a scheduling point
-	w.yield(fr.t, "go")
+	// no scheduling point here: the new thread becomes runnable and gets its
+	// chance at the spawner's next acquire-type operation
 }
 
 // threadAbort: path over because of a failure in thread t (not main): hand the
@@ -375,7 +375,6 @@ func (w *World) chanClose(fr *frame, c *Chan) {
 		w.rtPanic(fr, "close of closed channel")
 	}
 	w.storeLeaf(&c.closed, true)
-	w.yield(fr.t, "chan close")
 }
 
 func (w *World) selectOp(fr *frame, instr *ssa.Select) Value {
